@@ -300,3 +300,66 @@ pub fn %s(%s: &U256, %s: &U256) -> (res: bool)
         "operands reaching the arms satisfy wf (value < 2^256): established by literal parsing and by every checked operation's own postcondition",
     ]
     return [u]
+
+
+# ------------------------------------------------------------------------------------------------------
+# where U256 values are born: the literal conversion must establish wf (value < 2^256), the precondition of every U256 contract
+# ------------------------------------------------------------------------------------------------------
+LIT_ENV = r'''use vstd::prelude::*;
+use vstd::arithmetic::power2::pow2;
+verus! {
+#[verifier::external_body]
+pub struct BigUint { _p: () }
+impl View for BigUint { type V = nat; uninterp spec fn view(&self) -> nat; }
+impl BigUint {
+    /// ASSUMED: number of significant bits
+    #[verifier::external_body]
+    pub fn bits(&self) -> (r: u64) ensures (r <= 256) == (self@ < pow2(256)) { unimplemented!() }
+}
+pub struct U256(pub BigUint);
+pub open spec fn wf(x: &U256) -> bool { x.0@ < pow2(256) }
+// ---- extracted verbatim from sway-types/src/u256.rs ----
+@FROM_IMPL@
+impl vstd::std_specs::convert::FromSpecImpl<BigUint> for U256 {
+    open spec fn obeys_from_spec() -> bool { true }
+    open spec fn from_spec(v: BigUint) -> U256 { U256(v) }
+}
+// ---- environment of literal_to_literal (message carriers) ----
+pub enum Literal { U256(U256), Other }
+pub struct Span; pub struct Handler; pub struct ErrorEmitted; pub struct CompileError;
+pub enum ConvertParseTreeError { IntLiteralOutOfRange { span: Span } }
+impl From<ConvertParseTreeError> for CompileError { #[verifier::external_body] fn from(e: ConvertParseTreeError) -> CompileError { unimplemented!() } }
+impl vstd::std_specs::convert::FromSpecImpl<ConvertParseTreeError> for CompileError {
+    open spec fn obeys_from_spec() -> bool { false }
+    uninterp spec fn from_spec(v: ConvertParseTreeError) -> CompileError;
+}
+impl Handler { #[verifier::external_body] pub fn emit_err(&self, e: CompileError) -> ErrorEmitted { unimplemented!() } }
+/// literal_to_literal, arm `LitIntType::U256` (verbatim): every u256 literal that is accepted is below 2^256
+pub fn literal_u256_arm(parsed: BigUint, handler: &Handler, span: Span) -> (res: Result<Literal, ErrorEmitted>)
+    ensures res matches Ok(Literal::U256(v)) ==> wf(&v)
+{
+    let lit = @ARM@;
+    Ok(lit)
+}
+} // verus!
+fn main() {}
+'''
+
+
+def build_literal(tier):
+    CP = "sway-core/src/transform/to_parsed_lang/convert_parse_tree.rs"
+    fr = vf.extract([
+        {"id": "from", "file": UF, "locator": {"kind": "impl", "self_ty": "U256", "trait": "From<BigUint>"}},
+        {"id": "m", "file": CP, "locator": {"kind": "in_fn", "fn": {"kind": "fn", "name": "literal_to_literal"}, "what": "match", "scrutinee": "lit_int_type", "nth": 0}},
+    ])
+    arm = [a for a in fr["m"]["arms"] if a["pat"].replace(" ", "") == "LitIntType::U256"]
+    if len(arm) != 1:
+        raise vf.Undecided("literal_to_literal: arm LitIntType::U256 not found")
+    src = LIT_ENV.replace("@FROM_IMPL@", fr["from"]["text"]).replace("@ARM@", arm[0]["body"])
+    obs = [vf.Ob("literal_u256_arm", "C17", what="literal_to_literal: an accepted u256 literal is below 2^256 (the precondition wf of every U256 operation, incl. to_be_bytes' `32 - len`)")]
+    u = vf.VerusUnit("u256_literal", src, obs, extra_args=["--triggers-mode", "silent"])
+    u.fragments = [vf.frag_record(fr["from"]), dict(vf.frag_record(fr["m"]), note="arm LitIntType::U256 at line %d" % arm[0]["line"])]
+    u.rewrites = [{"rule": "R5", "before": "match arm LitIntType::U256", "after": "fn literal_u256_arm", "times": 1}]
+    u.assumptions = ["BigUint::bits() <= 256 <=> value < 2^256; Handler/Span/CompileError are carriers",
+                     "U256::to_be_bytes requires wf(self) (its `vec![0u8; 32 - v.len()]` underflows otherwise) -- that body is outside Verus's subset; the obligation here establishes wf at the only place literals enter"]
+    return [u]
